@@ -247,6 +247,10 @@ fn build_inner(input: &FstInput) -> Result<Vec<u8>, String> {
             for (k, v) in ps {
                 fe(b.insert(k, *v), "insert")?;
             }
+            // the finishing call alternates between the ways of getting at the result
+            if ps.len() % 2 == 1 {
+                return Ok(b.into_fst().into_inner());
+            }
             fe(b.into_inner(), "into_inner")
         }
         Front::RawAdd => {
@@ -261,12 +265,38 @@ fn build_inner(input: &FstInput) -> Result<Vec<u8>, String> {
             for (k, v) in ps {
                 fe(b.insert(k, *v), "insert")?;
             }
+            match ps.len() % 3 {
+                1 => return Ok(b.into_map().into_fst().into_inner()),
+                2 => {
+                    let mut out = vec![];
+                    let mut b2 = fe(fst::MapBuilder::new(&mut out), "new")?;
+                    for (k, v) in ps {
+                        fe(b2.insert(k, *v), "insert")?;
+                    }
+                    fe(b2.finish(), "finish")?;
+                    return Ok(out);
+                }
+                _ => {}
+            }
             fe(b.into_inner(), "into_inner")
         }
         Front::SetBuilder => {
             let mut b = fe(fst::SetBuilder::new(vec![]), "new")?;
             for (k, _) in ps {
                 fe(b.insert(k), "insert")?;
+            }
+            match ps.len() % 3 {
+                1 => return Ok(b.into_set().into_fst().into_inner()),
+                2 => {
+                    let mut out = vec![];
+                    let mut b2 = fe(fst::SetBuilder::new(&mut out), "new")?;
+                    for (k, _) in ps {
+                        fe(b2.insert(k), "insert")?;
+                    }
+                    fe(b2.finish(), "finish")?;
+                    return Ok(out);
+                }
+                _ => {}
             }
             fe(b.into_inner(), "into_inner")
         }
